@@ -15,7 +15,7 @@ from .common import REPO
 
 
 class SnippetError(Exception):
-    pass
+    harness_only = True     # child.py: not a failing input, the correspondence cannot be run
 
 
 def _calls(node, name):
@@ -43,6 +43,39 @@ def _loaded(nodes):
 KNOWN = {"_parse_exception_table", "bisect", "FrameDetails"} | set(dir(builtins))
 
 
+def _bodies(fn):
+    """every statement list inside fn"""
+    for n in ast.walk(fn):
+        for field in ("body", "orelse", "finalbody"):
+            v = getattr(n, field, None)
+            if isinstance(v, list) and v and isinstance(v[0], ast.stmt):
+                yield v
+
+
+def find_trim(fn):
+    """The handler-depth scan of inspect_frame, in either of its two equivalent shapes:
+         for ... in _parse_exception_table(co): if <cond>: <d> = depth; break
+         else: <d> = 0
+       or
+         <d> = 0
+         for ... in _parse_exception_table(co): if <cond>: <d> = depth; break
+    Returns (statements, loop, depth variable, default statements) or None."""
+    for body in _bodies(fn):
+        for i, n in enumerate(body):
+            if not (isinstance(n, ast.For) and _calls(n.iter, "_parse_exception_table")):
+                continue
+            if n.orelse:
+                both = _stored(n.body) & _stored(n.orelse)
+                if len(both) == 1:
+                    return [n], n, next(iter(both)), n.orelse
+            elif i > 0:
+                prev = body[i - 1]
+                if (isinstance(prev, ast.Assign) and len(prev.targets) == 1 and isinstance(prev.targets[0], ast.Name)
+                        and prev.targets[0].id in _stored(n.body)):
+                    return [prev, n], n, prev.targets[0].id, [prev]
+    return None
+
+
 def load():
     path = os.path.join(REPO, "stackscope", "_lowlevel_cpython_311.py")
     tree = ast.parse(open(path).read())
@@ -61,16 +94,11 @@ def load():
         raise SnippetError("no `co = frame.f_code` in inspect_frame")
 
     # (1) trim: `for ... in _parse_exception_table(co): if <cond>: <d> = depth; break  else: <d> = 0`
-    trim = depth_var = None
-    for n in ast.walk(fn):
-        if isinstance(n, ast.For) and n.orelse and _calls(n.iter, "_parse_exception_table"):
-            both = _stored(n.body) & _stored(n.orelse)
-            if len(both) == 1:
-                trim, depth_var = n, next(iter(both))
-                break
-    if trim is None:
-        raise SnippetError("handler-depth scan (for ... else over the exception table) not found in inspect_frame")
-    free = [v for v in _loaded([trim]) if v not in KNOWN and v != co_name and v not in _stored([trim])]
+    found = find_trim(fn)
+    if found is None:
+        raise SnippetError("handler-depth scan (loop over the exception table with a default of 0) not found in inspect_frame")
+    trim, _, depth_var, _ = found
+    free = [v for v in _loaded(trim) if v not in KNOWN and v != co_name and v not in _stored(trim)]
     if len(free) != 1:
         raise SnippetError("handler-depth scan depends on %r, expected exactly the instruction position" % (free,))
     trim_lasti = free[0]
@@ -109,7 +137,7 @@ def load():
                                body=list(stmts) + [ast.Return(value=ast.parse(ret, mode="eval").body)],
                                decorator_list=[], type_params=[])
 
-    mod = ast.Module(body=[mkfn("_trim", [co_name, trim_lasti], [trim], depth_var),
+    mod = ast.Module(body=[mkfn("_trim", [co_name, trim_lasti], trim, depth_var),
                            mkfn("_walk", [co_name, walk_lasti, details_name], walk, details_name + ".blocks")],
                      type_ignores=[])
     ast.fix_missing_locations(mod)
